@@ -217,3 +217,12 @@ pub fn placement_error(spec: &crate::cell::CellSpec, reported: &[Isometry3<f64>;
     }
     (dt, dr)
 }
+
+/// Pose of the tool centre point: the last link frame times the tool transform (if any).
+pub fn independent_forward(spec: &crate::cell::CellSpec, q: &[f64; 6]) -> Isometry3<f64> {
+    let f6 = independent_link_poses(spec, q)[5];
+    match &spec.tool_tf {
+        Some(t) => f6 * t.iso(),
+        None => f6,
+    }
+}
